@@ -225,6 +225,15 @@ CHECKS = {
          'equal the model\'s S-representation; top_sort/2 must fail exactly on cyclic graphs and otherwise return a valid order.',
     note='Definitions from the library documentation (closure: paths of length >= 1; reachable includes the start; complement '
          'without self loops). Multi-character atom names avoid the sort/2 finding K4.'),
+ 'C44': dict(
+    level='exploration',
+    technique='runtime monitoring: history monitor over set_prolog_flag/2 calls with a full flag-table snapshot (three read modes) after every call, plus behavioural effect probes',
+    text='Random histories of set_prolog_flag/2 calls (valid, invalid, read-only, unknown-flag, uninstantiated) run on fresh machines; '
+         'after every call the whole flag table is read by enumeration, with the flag bound and with flag and value bound, and the three '
+         'must agree; a successful set must be visible, a failing or raising set must leave the table unchanged, read-only flags never '
+         'change, error formals follow ISO 8.17.1.3; after each successful change of double_quotes, occurs_check or unknown the flag\'s '
+         'effect on reading "ab", on X = f(X) and on calling an undefined predicate is observed.',
+    note='Goal text reaches the machine as a double-quoted literal, so pl/vt.pl normalises it under every double_quotes mode.'),
 }
 
 NOT_APPLICABLE_REASON_UNBUILT = ('check designed in DESIGN.md but not built/validated yet in this session; '
